@@ -214,6 +214,9 @@ WITNESSES = [
     ("X9:transparent struct", ["w:X9", "transparent:u32"], "transparent",
      '#[serde(transparent)]\npub struct T { pub inner: u32 }\n',
      ['T { inner: 7 }']),
+    ("X10:empty tuple variant and empty struct variant", ["w:X10", "tagging:external", "v:empty-tuple", "v:empty-struct"], "enum_mixed",
+     'pub enum T { A(), B {}, C(u8) }\n',
+     ['T::A()', 'T::B {}', 'T::C(1)']),
     ("F1:Option::None is written as null", ["w:F1", "t:option"], "struct",
      'pub struct T { pub a: Option<u8> }\n',
      ['T { a: Some(1) }', 'T { a: None }']),
@@ -318,6 +321,8 @@ def gen_type(g, idx):
         vlines, makers = [], []
         for v in vs:
             k = g.pick(["unit", "newtype", "tuple", "struct", "struct"])
+            # a variant with braces or parentheses and no field is not a unit variant: serde writes {} / [] for it
+            if g.chance(1, 10) and tagging in ("external", "adjacent"): k = g.pick(["empty_struct", "empty_tuple"])
             if tagging == "internal" and k == "tuple": k = "struct"
             if tagging == "internal" and k == "newtype": k = "newtype_struct"
             pre = ""
@@ -328,7 +333,11 @@ def gen_type(g, idx):
             if len(makers) >= 1 and g.chance(1, 12):
                 # a variant serde never writes or reads
                 vlines.append(f"    #[serde(skip)] {pre}{v}Skipped(u8),"); attrs.append("v:skip")
-            if k == "unit":
+            if k == "empty_struct":
+                vlines.append(f"    {pre}{v} {{}},"); makers.append(lambda g, full, v=v: f"T::{v} {{}}"); attrs.append("v:empty-struct")
+            elif k == "empty_tuple":
+                vlines.append(f"    {pre}{v}(),"); makers.append(lambda g, full, v=v: f"T::{v}()"); attrs.append("v:empty-tuple")
+            elif k == "unit":
                 vlines.append(f"    {pre}{v},"); makers.append(lambda g, full, v=v: f"T::{v}"); attrs.append("v:unit-in-mixed")
             elif k == "newtype":
                 ty = g.pick(["u32", "String", "N", "Vec<String>"])
